@@ -177,9 +177,9 @@ theorem qtail_end {cap mc : Nat} {A L E : Bytes} {sc : List (List HOp × Bool)} 
     ∃ c'' fin, runTask (f + 1) c n none = (c'', fin) ∧ TailEnd cap mc (L ++ E) sc h0 evs em c'' fin := by
   obtain ⟨hsame, hph, hsc, hstop, hmx, hsg, hwk⟩ := prePoll_same c n hsegs
   rcases hq with ⟨c', hh, hsg', hte⟩ | ⟨c', hh, hl, hw, _, hte⟩
-  · have hpoll := hh.poll (F := 100000) hN
+  · have hpoll := hh.pollT hN
     exact ⟨c', "RET", by rw [runTask_succ, hpoll], hte⟩
-  · have hpoll := hh.poll (F := 100000) hN
+  · have hpoll := hh.pollT hN
     have hw' : c'.env.tr.woken = false := hw.trans hwk
     have hsg'' : c'.env.segs = [] := hl.segs.trans hsg
     rw [runTask_succ, hpoll]
